@@ -109,6 +109,15 @@ class Gen:
             if self.f.get("p_fault_stmt") and self.t.chance(self.f["p_fault_stmt"], 8, "fault?"):
                 out.append(["fault", "handler" if in_handler else ctx])
             st = self.stmt(ctx, owner, depth, callees, in_loop, in_handler)
+            bv = getattr(self, "bindvar", None)
+            if bv and ctx == "behavior" and depth > 0 and self.t.chance(1, 4, "abandon_reuse?"):
+                # a bound behavior instance is started under a block that a handler abandons,
+                # and invoked again afterwards (sub-behaviours of abandoned blocks are stopped)
+                inst = f"@{bv[0]}:{bv[1]}"
+                self.bind_used = True
+                out.append(["try", [["do", [inst], None]],
+                            [[self.table("cond"), [self.yielding(ctx, owner), ["abort"]]]]])
+                out.append(["do", [inst], None])
             out.append(st)
             if st[0] in ("terminate", "terminatesim", "abort", "break", "continue", "return"):
                 break
@@ -172,6 +181,11 @@ class Gen:
                     names.append(pool.pop(self.t.draw(len(pool), "do.which")))
             else:
                 names = [self.t.choice(callees, "do.which")]
+                bv = getattr(self, "bindvar", None)
+                if bv and bv[1] == names[0] and self.t.chance(2, 3, "do.instance"):
+                    # invoke the behavior *instance* bound at the start of the body again
+                    names = [f"@{bv[0]}:{bv[1]}"]
+                    self.bind_used = True
             if op == "do":
                 mod = None
             elif op == "do_for":
@@ -253,7 +267,14 @@ class Gen:
         for i in reversed(range(nb)):
             d = {"kind": "behavior", "name": beh_names[i]}
             self.guards(d)
-            d["body"] = ensure_generator(self.block("behavior", beh_names[i], f["depth"], beh_names[i + 1 :]))
+            callees = beh_names[i + 1 :]
+            self.bindvar, self.bind_used = None, False
+            if callees and f.get("p_bind_instance") and t.chance(f["p_bind_instance"], 8, "bind?"):
+                self.bindvar = (f"_b{i}", t.choice(callees, "bind.which"))
+            d["body"] = ensure_generator(self.block("behavior", beh_names[i], f["depth"], callees))
+            if self.bind_used:
+                d["body"].insert(0, ["bind", self.bindvar[0], self.bindvar[1]])
+            self.bindvar = None
             behaviors.insert(0, d)
         monitors = []
         for i in range(nm):
